@@ -10,6 +10,7 @@ at the top-level directory.
 */
 
 #include "slu_mt_cdefs.h"
+#include "slu_mt_verif.h"
 
 int_t
 pcgstrf_factor_snode(
@@ -116,6 +117,7 @@ pcgstrf_factor_snode(
 	
     }
 
+    SLU_VERIF_EV("SnFact", pnum, jcol, kcol - jcol, singular);
     /* Store the row subscripts of kcol-1 for pruned graph */
     k = ito = xlsub_end[jcol];
     for (ifrom = xlsub[jcol]+kcol-jcol-1; ifrom < k; ++ifrom)
